@@ -7,7 +7,7 @@ ROOT = os.path.dirname(os.path.dirname(os.path.abspath(__file__)))
 summ = json.load(open(os.path.join(ROOT, "seeded", "round5_summaries.json")))
 Q = "quick"
 DET = {
- "C01-I": {"C01": "PENDING", "C13": "quick"},
+ "C01-I": {"C01": "quick (gs.Dimacs ends a third of its texts without a final newline, added after this change was missed)", "C13": "quick"},
  "C02-I": {"C02": Q},
  "C03-I": {"C03": Q},
  "C04-I": {"C04": "quick (hard clauses written with a weight above top in a third of the WCNF texts with a top weight, added after this change was missed)"},
@@ -16,7 +16,7 @@ DET = {
  "C07-I": {"C07": Q},
  "C08-I": {"C08": Q},
  "C09-I": {"C09": Q},
- "C10-I": {"C10": "PENDING"},
+ "C10-I": {"C10": Q},
  "C11-I": {"C11": Q},
  "C12-I": {"C12": "quick (an export to a failing writer precedes a quarter of the judged exports, added after this change was missed)"},
  "C13-I": {"C13": Q},
@@ -24,9 +24,9 @@ DET = {
  "C15-I": {"C15": Q},
  "C16-I": {"C16": Q},
  "C17-I": {"C17": Q},
- "C18-I": {"C18": "PENDING"},
+ "C18-I": {"C18": "quick (sub-check huge-constraint, added after this change was missed: a printed line of more than a megabyte)"},
  "C19-I": {"C19": "not reported by C19's quick tier at seed 1 (about forty -mus runs, few of them on unsatisfiable files with a repeated literal)", "C07": "quick", "C08": "quick (the root cause is the certificate checker's: families with repeated literals)"},
- "C20-I": {"C20": "PENDING"},
+ "C20-I": {"C20": "quick (the stream does not end: the step limit of the hooks stops the solver and the case is reported)"},
 }
 for sid, det in DET.items():
     p = os.path.join(ROOT, "seeded", sid, "meta.json")
